@@ -17,7 +17,7 @@ RULE = (
     "without '/' '#', some equal to the prefix part of statement IRIs) x statement sequences x {generic sink, rdflib Graph "
     "(bind_namespaces none and default) / Dataset} x TRIPLES / QUADS / GRAPHS x small tables (names 8..9, prefixes 0..3) so "
     "that declarations evict x entry {stream_frames with a container, Graph.serialize, flat_stream_to_file from a "
-    "statement generator}. Ground truth = list(source.namespaces) after the source's own binding rules. Oracles: Prefix "
+    "statement generator, grouped_stream_to_file with two sources that each carry their own bindings}. Ground truth = list(source.namespaces) after the source's own binding rules. Oracles: Prefix "
     "events of parse_jelly_flat == ground truth, in order; namespaces of the object returned by parse_jelly_to_graph == "
     "ground truth as a mapping; re-serialising that object reproduces the same declarations (read off the wire by the "
     "reference decoder); statements read back with the option on == with it off == input, and the call succeeds with the "
@@ -56,9 +56,11 @@ def ns_case(draw):
         used_p.add(p)
         used_n.add(ns)
         bindings.append([p, ns])
-    entry = draw(st.sampled_from(["stream_frames", "stream_frames", "serialize", "flat_generator"]))
+    entry = draw(st.sampled_from(["stream_frames", "stream_frames", "serialize", "flat_generator", "grouped_multi"]))
     if integration == "generic" and entry == "serialize":
         entry = "stream_frames"
+    if entry == "grouped_multi" and (phys == "GRAPHS" or len(stmts) < 2):
+        entry = "stream_frames"  # both sources must be non-empty (the stream class is guessed from the first one)
     if phys == "GRAPHS" and entry == "flat_generator":
         entry = "stream_frames"
     ki, kd = gen.needs(stmts)
@@ -68,7 +70,14 @@ def ns_case(draw):
     preset = [draw(st.sampled_from([max(8, ki), max(8, ki) + 1, 4000])),
               draw(st.sampled_from(sorted({0, ki, ki + 1, 150} | set(range(1, ki))))),
               draw(st.sampled_from([max(kd, 0), kd + 1, 32])) if kd else draw(st.sampled_from([0, 32]))]
+    second = []
+    if entry == "grouped_multi":
+        for _ in range(draw(st.integers(1, 3))):
+            p, ns = draw(names), draw(pool)
+            if p not in {x[0] for x in second} and ns and ns not in {x[1] for x in second}:
+                second.append([p, ns])
     return {"integration": integration, "phys": phys, "statements": stmts, "bindings": bindings, "entry": entry,
+            "second_bindings": second, "split": draw(st.integers(1, max(1, len(stmts) - 1))),
             "logical": 1 if phys == "TRIPLES" else 2, "delimited": draw(st.integers(0, 3)) != 0,
             "frame_size": draw(st.sampled_from([1, 3, 250])), "preset": preset,
             "graph_defaults": draw(st.booleans()),
@@ -140,7 +149,49 @@ def stmts_of(events, integ, as_set):
     return sorted(map(repr, n)) if as_set else n
 
 
+def body_multi(case, acc):
+    """Two sources, each with its own bindings, written through ONE stream (grouped_stream_to_file): every source's
+    declarations must reach the reader, in order, in front of that source's statements."""
+    integ = case["integration"]
+    k = case["split"]
+    parts = [dict(case, statements=case["statements"][:k]), dict(case, statements=case["statements"][k:], bindings=case["second_bindings"])]
+    sources = [build_source(p) for p in parts]
+    truths = [truth_of(s_, integ) for s_ in sources]
+    cfg = dict(case)
+    cfg["params"] = dict(case["params"], namespace_declarations=True)
+    cfg["delimited"] = True
+    buf = io.BytesIO()
+    try:
+        if integ == "generic":
+            from pyjelly.integrations.generic import serialize as ser
+        else:
+            from pyjelly.integrations.rdflib import serialize as ser
+        ser.grouped_stream_to_file((s_ for s_ in sources), buf, options=pyj.make_options(cfg))
+    except Exception as exc:  # noqa: BLE001
+        if "cannot hold all the entries" in str(exc):
+            return None
+        return Violation(f"C14:grouped-multi-raises:{type(exc).__name__}", f"{exc!r}", case)
+    res = jellyref.decode(buf.getvalue(), True, "strict")
+    if acc is not None:
+        acc.case(case, len(truths[0]) + len(truths[1]) >= 2, ["entry_grouped_multi", "integration_" + integ])
+    if res.error is not None:
+        return Violation("C14:invalid-output-with-declarations", f"{res.error}", case)
+    want = [[p, list(i)] for t_ in truths for p, i in t_]
+    got = [[e[1], list(e[2])] for e in res.prefixes]
+    if got != want:
+        return Violation("C14:declarations-on-wire-differ", f"two sources bind {want!r}; the stream declares {got!r}", case)
+    try:
+        ev = pyj.parse_flat(buf.getvalue(), integ)
+    except Exception as exc:  # noqa: BLE001
+        return Violation(f"C14:parse-raises:{type(exc).__name__}", f"{exc!r}", case)
+    if [[e[1], e[2]] for e in ev if e[0] == "prefix"] != want:
+        return Violation("C14:prefix-events-differ", "reader does not deliver the declarations of every source", case)
+    return None
+
+
 def body(case, acc):
+    if case["entry"] == "grouped_multi":
+        return body_multi(case, acc)
     integ = case["integration"]
     source = build_source(case)
     from_gen = case["entry"] == "flat_generator"
